@@ -49,7 +49,7 @@ var c13initiators = []string{"client-finish", "server-finish", "server-fail", "c
 func (c13) Plan(tier string, seed uint64) []core.Case {
 	var cases []core.Case
 	transports := []string{rig.InProc, rig.TCP, rig.TLS, rig.WS, rig.WSS}
-	traffics := []string{"idle", "c2s", "s2c", "both", "unsolicited"}
+	traffics := []string{"idle", "c2s", "s2c", "both", "unsolicited", "backlog"}
 	bufs := []int{0, 1, 32}
 	rng := core.NewRng(seed)
 	var scns []c13scn
@@ -57,13 +57,21 @@ func (c13) Plan(tier string, seed uint64) []core.Case {
 		i := 0
 		for _, ini := range c13initiators {
 			for _, tr := range transports {
-				scns = append(scns, c13scn{Initiator: ini, Transport: tr, Buf: bufs[i%3], Traffic: traffics[i%5], DelayUS: rng.Intn(3000), Perturb: i%4 == 0})
+				scns = append(scns, c13scn{Initiator: ini, Transport: tr, Buf: bufs[i%3], Traffic: traffics[i%6], DelayUS: rng.Intn(3000), Perturb: i%4 == 0})
 				i++
 			}
 		}
 		// extra cells so that every buffer size and traffic kind meets every initiator
 		for k := 0; k < 35; k++ {
 			scns = append(scns, c13scn{Initiator: c13initiators[k%5], Transport: transports[(k/5+k)%5], Buf: bufs[(k/5)%3], Traffic: traffics[(k+k/5+1)%5], DelayUS: rng.Intn(3000), Perturb: k%3 == 0})
+		}
+		// a server that terminates while inbound data is still unread (its handler is busy), on every socket transport
+		k := 0
+		for _, ini := range []string{"server-finish", "server-fail", "server-close"} {
+			for _, tr := range []string{rig.TCP, rig.TLS, rig.WS, rig.WSS} {
+				scns = append(scns, c13scn{Initiator: ini, Transport: tr, Buf: bufs[k%3], Traffic: "backlog", DelayUS: rng.Intn(3000), Perturb: false})
+				k++
+			}
 		}
 	} else {
 		for rep := 0; rep < 2; rep++ {
@@ -153,7 +161,22 @@ func (p c13) scenario(r *core.Result, s c13scn, seed uint64) {
 	estCh := make(chan struct{}, 1)
 	var finishedCB int64
 	mux := &lime.EnvelopeMux{}
-	mux.MessageHandlerFunc(nil, func(ctx context.Context, m *lime.Message, sd lime.Sender) error { return nil })
+	// 'backlog' traffic: the server's message handler is busy until the scenario is over, so what the client keeps
+	// sending stays unread on the server's side of the connection while the server terminates the session
+	backlog := s.Traffic == "backlog" && strings.HasPrefix(s.Initiator, "server-")
+	gate := make(chan struct{})
+	var gateOnce sync.Once
+	openGate := func() { gateOnce.Do(func() { close(gate) }) }
+	defer openGate()
+	mux.MessageHandlerFunc(nil, func(ctx context.Context, m *lime.Message, sd lime.Sender) error {
+		if backlog {
+			select {
+			case <-gate:
+			case <-ctx.Done():
+			}
+		}
+		return nil
+	})
 	mux.NotificationHandlerFunc(nil, func(ctx context.Context, m *lime.Notification) error { return nil })
 	mux.RequestCommandHandlerFunc(nil, func(ctx context.Context, m *lime.RequestCommand, sd lime.Sender) error { return nil })
 	mux.ResponseCommandHandlerFunc(nil, func(ctx context.Context, m *lime.ResponseCommand, sd lime.Sender) error { return nil })
@@ -183,6 +206,19 @@ func (p c13) scenario(r *core.Result, s c13scn, seed uint64) {
 	}()
 	ctx, cancel := context.WithTimeout(context.Background(), 120*time.Second)
 	defer cancel()
+	// 'backlog' over a socket: a man-in-the-middle with a small window towards the server, which for a moment stops
+	// forwarding what the server sends - the terminal envelope is then still in the server's own send queue, behind
+	// earlier traffic, when the server closes a connection that has unread inbound data.
+	var proxy *rig.Proxy
+	if backlog && s.Transport != rig.InProc {
+		proxy, err = rig.NewProxyOpts(sr.Addr(s.Transport).String(), 4096)
+		if err != nil {
+			r.Verdict = core.Inconclusive
+			r.Note = err.Error()
+			return
+		}
+		defer proxy.Close()
+	}
 
 	// ---- the client side -----------------------------------------------------------------------------
 	var cc *lime.ClientChannel
@@ -225,7 +261,13 @@ func (p c13) scenario(r *core.Result, s c13scn, seed uint64) {
 		}
 		cc = client.VerifChannel()
 	} else {
-		t, err := sr.Dial(ctx, s.Transport, 8, nil)
+		var t lime.Transport
+		var err error
+		if proxy != nil {
+			t, err = rig.DialVia(ctx, s.Transport, proxy.Addr())
+		} else {
+			t, err = sr.Dial(ctx, s.Transport, 8, nil)
+		}
 		if err != nil {
 			r.Verdict = core.Inconclusive
 			r.Note = err.Error()
@@ -317,6 +359,7 @@ func (p c13) scenario(r *core.Result, s c13scn, seed uint64) {
 		}()
 	}
 	var clientSender c04senderIface = cc
+	var stalled *rig.ProxyConn
 	switch s.Traffic {
 	case "c2s":
 		send(clientSender, "c", &sentC2S, false)
@@ -325,6 +368,46 @@ func (p c13) scenario(r *core.Result, s c13scn, seed uint64) {
 	case "both":
 		send(clientSender, "c", &sentC2S, false)
 		send(srvCh, "s", &sentS2C, false)
+	case "backlog":
+		if !backlog {
+			send(clientSender, "c", &sentC2S, false)
+			break
+		}
+		// a burst the server cannot consume: it stays in the channel's buffer and on the connection
+		for i := 0; i < 200; i++ {
+			sctx, sc2 := context.WithTimeout(context.Background(), 50*time.Millisecond)
+			m := &lime.Message{}
+			m.ID = fmt.Sprintf("b-%d", i)
+			m.SetContent(lime.TextDocument("backlog"))
+			err := cc.SendMessage(sctx, m)
+			sc2()
+			if err != nil {
+				break
+			}
+			atomic.AddInt64(&sentC2S, 1)
+		}
+		r.Count("backlog_scenarios", 1)
+		if proxy != nil {
+			if pc := proxy.Current(); pc != nil {
+				pc.StallS2C(true)
+				time.Sleep(10 * time.Millisecond)
+				payload := strings.Repeat("x", 1000)
+				for i := 0; i < 16; i++ {
+					sctx, sc2 := context.WithTimeout(context.Background(), 50*time.Millisecond)
+					m := &lime.Message{}
+					m.ID = fmt.Sprintf("sb-%d", i)
+					m.SetContent(lime.TextDocument(payload))
+					err := srvCh.SendMessage(sctx, m)
+					sc2()
+					if err != nil {
+						break
+					}
+					atomic.AddInt64(&sentS2C, 1)
+				}
+				stalled = pc
+				r.Count("backlog_stalled_path", 1)
+			}
+		}
 	case "unsolicited":
 		// unsolicited responses flow towards the side that is about to terminate
 		if s.Initiator == "client-finish" || s.Initiator == "client-close" {
@@ -340,6 +423,13 @@ func (p c13) scenario(r *core.Result, s c13scn, seed uint64) {
 	// ---- the terminating call ----------------------------------------------------------------------------------
 	termDone := make(chan error, 1)
 	wantState := lime.SessionStateFinished
+	if stalled != nil {
+		// the path recovers shortly after the termination was requested
+		go func() {
+			time.Sleep(20 * time.Millisecond)
+			stalled.StallS2C(false)
+		}()
+	}
 	go func() {
 		tctx, tc := context.WithTimeout(context.Background(), 20*time.Second)
 		defer tc()
@@ -373,6 +463,7 @@ func (p c13) scenario(r *core.Result, s c13scn, seed uint64) {
 	case termErr = <-termDone:
 	case <-time.After(30 * time.Second):
 		close(stopTraffic)
+		openGate()
 		buf := make([]byte, 1<<18)
 		n := runtime.Stack(buf, true)
 		fail("terminating-call-blocked", "the terminating call did not return within 30 s")
@@ -383,6 +474,7 @@ func (p c13) scenario(r *core.Result, s c13scn, seed uint64) {
 		return
 	}
 	close(stopTraffic)
+	openGate()
 	_ = termErr
 
 	waitFor := func(cond func() bool, bound time.Duration) bool {
